@@ -366,7 +366,10 @@ fn raw_case<const N: usize>(ctx: &Ctx, idx: usize, id: String, hostile: bool) ->
     let mut c = Case::new(id);
     let mut rng = ctx.case_rng(if hostile { "raw-malformed" } else { "raw" }, idx);
     let offered = pick_offered(&mut rng, idx);
+    // a third of the honest cases run on a platform that shares buffers in place
+    hal::inplace_next(!hostile && idx % 3 == 1);
     let (t, st) = setup_transport(offered);
+    c.tag(if !hostile && idx % 3 == 1 { "platform=inplace" } else { "platform=bounce" });
     let mut net = match guarded(|| VirtIONetRaw::<LedgerHal, ModelTransport, N>::new(t)) {
         Ok(Ok(n)) => n,
         other => {
@@ -766,7 +769,9 @@ fn dev_case<const N: usize>(ctx: &Ctx, idx: usize, id: String, hostile: bool) ->
     if hostile && rng.chance(1, 6) {
         buf_len = *rng.pick(&[0usize, 7, 1525, 1526, 1527]);
     }
+    hal::inplace_next(!hostile && idx % 3 == 1);
     let (t, st) = setup_transport(offered);
+    c.tag(if !hostile && idx % 3 == 1 { "platform=inplace" } else { "platform=bounce" });
     let r = guarded(|| VirtIONet::<LedgerHal, ModelTransport, N>::new(t, buf_len));
     let mut net = match r {
         Ok(Ok(n)) => n,
